@@ -1,6 +1,7 @@
 package main
 
 import (
+	"go/ast"
 	"fmt"
 	"go/token"
 	"go/types"
@@ -1074,9 +1075,15 @@ func (c *FnCtx) chanMods(ch ssa.Value, out map[string]bool) {
 	}
 }
 
-func (c *FnCtx) chanSend(ch, x ssa.Value, pos token.Pos) {
+func (c *FnCtx) chanSend(ch, x ssa.Value, pos token.Pos, ins ssa.Instruction) {
 	_ = c.v(ch)
 	val := c.v(x)
+	if n := chanVarName(ch); n != "" && ins != nil {
+		// "before send:<channel variable> assert ..." / "after send:<channel variable> set ..."
+		extra := map[string]TV{"p0": {T: val, Ty: x.Type()}}
+		c.pointHints("send:"+n, ins, pos, extra)
+		defer c.pointSets("send:"+n, ins, extra)
+	}
 	spec, o := c.chanSpec(ch, "send")
 	if spec == nil {
 		return
@@ -1115,6 +1122,14 @@ func (c *FnCtx) chanRecv(x *ssa.UnOp) {
 	} else {
 		val = c.defFresh(x)
 		vt = x.Type()
+	}
+	if n := chanVarName(x.X); n != "" {
+		// "after recv:<channel variable> set ...": r0 is the received value, ok whether the channel was open
+		extra := map[string]TV{"r0": {T: val, Ty: vt}, "ok": {T: "true", Ty: tBool}}
+		if x.CommaOk {
+			extra["ok"] = TV{T: c.tuples[x][1], Ty: tBool}
+		}
+		defer c.pointSets("recv:"+n, x, extra)
 	}
 	spec, o := c.chanSpec(x.X, "recv")
 	if spec == nil {
@@ -1241,4 +1256,84 @@ func (c *FnCtx) dryRun(f func()) {
 		_ = ttKnown
 	}()
 	f()
+}
+
+// chanVarName: the source variable a channel operand comes from (a captured variable, a parameter,
+// or a local), "" if it is not a plain variable.
+func chanVarName(ch ssa.Value) string {
+	switch x := ch.(type) {
+	case *ssa.Parameter:
+		return x.Name()
+	case *ssa.FreeVar:
+		return x.Name()
+	case *ssa.UnOp:
+		if x.Op == token.MUL {
+			switch y := x.X.(type) {
+			case *ssa.FreeVar:
+				return y.Name()
+			case *ssa.Alloc:
+				return y.Comment
+			}
+		}
+	case *ssa.MakeChan:
+		if refs := x.Referrers(); refs != nil {
+			for _, r := range *refs {
+				if d, ok := r.(*ssa.DebugRef); ok {
+					if id, ok := d.Expr.(*ast.Ident); ok {
+						return id.Name
+					}
+				}
+			}
+		}
+	}
+	return ""
+}
+
+// pointEnv: the function's environment at a program point, with extra names in scope.
+func (c *FnCtx) pointEnv(ins ssa.Instruction, extra map[string]TV) *Env {
+	env := c.fnEnv(c.st, c.entry, false)
+	if blk := ins.Block(); blk != nil {
+		at := len(blk.Instrs)
+		for i, x := range blk.Instrs {
+			if x == ins {
+				at = i
+			}
+		}
+		env.lookup = c.localLookup(blk, at, nil)
+	}
+	for n, tv := range extra {
+		env.vars[n] = tv
+	}
+	return env
+}
+
+// pointSets applies the ghost assignments "after <key> set g = e" of the contract at this point.
+func (c *FnCtx) pointSets(key string, ins ssa.Instruction, extra map[string]TV) {
+	if c.spec == nil {
+		return
+	}
+	for _, g := range c.spec.Sets[key] {
+		comp, _, ok := c.localGhost(g.Name)
+		if !ok {
+			panic(unsupported("after ... set: unknown ghostvar " + g.Name))
+		}
+		v, _ := c.tr(g.E.E, c.pointEnv(ins, extra))
+		n := c.freshComp(comp)
+		c.assume(eq(n, v))
+		c.set(comp, n)
+	}
+}
+
+// pointHints proves (then assumes) the facts "before <key> assert e" of the contract at this point.
+func (c *FnCtx) pointHints(key string, ins ssa.Instruction, pos token.Pos, extra map[string]TV) {
+	if c.spec == nil {
+		return
+	}
+	for k, h := range c.spec.Hints[key] {
+		env := c.pointEnv(ins, extra)
+		o := c.oblig(fmt.Sprintf("%s/hint:%s#%d", c.name, key, k+1), "hint", c.g.posStr(pos), false)
+		o.Desc = h.Text
+		o.Tags = h.Tags
+		c.assertG(o, c.mustClause(h, env), c.mustGoal(h, env))
+	}
 }
